@@ -3,7 +3,7 @@
 
 Translates, from the Python AST of the current source, the straight-line integer methods
   relativedelta._fix, _set_months, __neg__, __abs__, __bool__ (+ the alias __nonzero__), __eq__,
-  __hash__, __add__ / __sub__ (relativedelta operand), __mul__ (integer factor), module function
+  __ne__, __hash__, __add__ / __sub__ (relativedelta operand), __add__ (timedelta operand), __mul__ (integer factor), module function
   _sign, and _common.weekday.__eq__ / __hash__
 into Gallina definitions gen_* over coq/rd/RdGenBase.v (`obj` = one field per instance attribute;
 attribute writes on self thread a state; every method returns `gres`, GErr = AttributeError from
@@ -26,7 +26,7 @@ reports a broken C16_gen_* obligation -- only C16 depends on the output, so only
    of weekday.__eq__ (the operand is a weekday object).
  expressions
    int literals, None, True, False, locals, `self.f` / `other.f`, `x.weekday.weekday` / `x.weekday.n`
-   (only where evaluated unconditionally; hoisted into a gbind), + - * on ints, unary -, abs(e),
+   and `self.__eq__(other)` (only where evaluated unconditionally; hoisted into a gbind), + - * on ints, unary -, abs(e),
    int(e) and float(e) on ints (identity: exact below 2^53), _sign(e), comparisons == != < <= > >=
    on ints, == != on int-or-None, `is None` / `is not None`, and / or / not with Python truthiness
    (ints: != 0; None: false; weekday objects: always true -- checked: class weekday defines no
@@ -133,9 +133,20 @@ def deref_node(e, cx):
     return None
 
 
+def eq_call_node(e, cx):
+    """self.__eq__(other) with both relativedeltas (used by __ne__)"""
+    return (isinstance(e, ast.Call) and isinstance(e.func, ast.Attribute) and e.func.attr == "__eq__"
+            and isinstance(e.func.value, ast.Name) and cx.objs.get(e.func.value.id) == "rd"
+            and len(e.args) == 1 and not e.keywords and isinstance(e.args[0], ast.Name)
+            and cx.objs.get(e.args[0].id) == "rd" and "gen_eq" in cx.methods)
+
+
 def find_derefs(e, cx, out, conditional=False):
-    """collect weekday dereferences in evaluation positions that are always evaluated"""
+    """collect weekday dereferences (and calls of translated methods) in evaluation positions that
+    are always evaluated"""
     d = deref_node(e, cx)
+    if d is None and eq_call_node(e, cx):
+        d = True
     if d is not None:
         if conditional:
             raise TranslateError("weekday attribute read in a conditionally evaluated position")
@@ -167,6 +178,12 @@ def with_hoists(exprs, cx, body):
         find_derefs(e, cx, nodes)
     pre = []
     for n in nodes:
+        if eq_call_node(n, cx):
+            cx.ntmp += 1
+            tmp = "t%d_eq" % cx.ntmp
+            cx.hoisted[id(n)] = (tmp, BOOL)
+            pre.append("gbind (gen_eq v_%s v_%s) (fun %s =>\n" % (n.func.value.id, n.args[0].id, tmp))
+            continue
         obj, attr = deref_node(n, cx)
         cx.ntmp += 1
         tmp = "t%d_%s" % (cx.ntmp, attr)
@@ -205,6 +222,10 @@ def val(e, cx):
             if e.attr not in RD_FIELDS:
                 raise TranslateError("unknown relativedelta attribute %s" % e.attr)
             return "(%s v_%s)" % (coqf(e.attr), e.value.id), RD_FIELDS[e.attr]
+        if kind == "td":
+            if e.attr not in ("days", "seconds", "microseconds"):
+                raise TranslateError("unknown timedelta attribute %s" % e.attr)
+            return "(td_%s v_%s)" % (e.attr, e.value.id), INT
         if e.attr not in WD_FIELDS:
             raise TranslateError("unknown weekday attribute %s" % e.attr)
         return "(%s v_%s)" % ("fst" if e.attr == "weekday" else "snd", e.value.id), WD_FIELDS[e.attr]
@@ -371,7 +392,7 @@ def ret_expr(e, cx):
         if e.args or any(k.arg is None for k in e.keywords):
             raise TranslateError("constructor call with positional / ** arguments")
         if "gen_init" not in cx.methods:
-            raise TranslateError("constructor call but _fix was not translated")
+            raise TranslateError("constructor call but gen_init (_fix + the shape of __init__) is not available")
         kws = {}
         for k in e.keywords:
             if k.arg not in RD_FIELDS or k.arg == "_has_time" or k.arg in kws:
@@ -515,7 +536,9 @@ def block(stmts, cx, k, m, ind=1):
         block(s.body, cx.copy(), probe("t"), dummy, 0)
         block(s.orelse, cx.copy(), probe("e"), dummy, 0)
         tys = {v: (seen["t"][v] if seen["t"][v] == "obj" else unify(seen["t"][v], seen["e"][v])) for v in keep}
-        monadic = any(deref_node(n, cx) is not None for st in [s] for n in ast.walk(st))
+        monadic = any(deref_node(n, cx) is not None or eq_call_node(n, cx)
+                      or (isinstance(n, ast.Expr) and isinstance(n.value, ast.Call))
+                      for st in [s] for n in ast.walk(st))
 
         def tup(c2):
             parts = [("v_" + v) if tys[v] == "obj" else coerce("v_" + v, c2.types[v], tys[v]) for v in keep]
@@ -600,6 +623,78 @@ def do_method(fn, params, objs, types, methods, kind, coqname, coqparams, rettyp
     return "Definition %s %s : gres %s :=\n%s.\n" % (coqname, coqparams, rettype[1], body)
 
 
+def check_init_shape(rd):
+    """gen_init models the keyword path of __init__ as the operators use it (integer relative
+    values, weekday object or None, no weeks / yearday / nlyearday / dt1 / dt2) by "assign every
+    field, then _fix".  This checks, fail-closed, that the source still has that shape:
+    defaults, one canonical assignment per field, nothing else writes the fields except under
+    tests of nlyearday / yearday / yday (which start out None / 0), last statement self._fix().
+    The two `if any(...)` guards (ValueError for non-integer years/months, DeprecationWarning) are
+    not translated: they do not fire on integers -- tied by the correspondence only."""
+    fn = [n for n in rd.body if isinstance(n, ast.FunctionDef) and n.name == "__init__"]
+    if len(fn) != 1:
+        raise TranslateError("__init__ not found")
+    fn = fn[0]
+    names = [a.arg for a in fn.args.args]
+    defaults = dict(zip(names[len(names) - len(fn.args.defaults):], fn.args.defaults))
+    for f in REL + ["weeks"]:
+        d = defaults.get(f)
+        if not (isinstance(d, ast.Constant) and d.value == 0 and not isinstance(d.value, bool)):
+            raise TranslateError("__init__: default of %s is not 0" % f)
+    for f in ABS + ["weekday", "yearday", "nlyearday", "dt1", "dt2"]:
+        d = defaults.get(f)
+        if not (isinstance(d, ast.Constant) and d.value is None):
+            raise TranslateError("__init__: default of %s is not None" % f)
+    body = [s for s in fn.body if not (isinstance(s, ast.Expr) and isinstance(s.value, ast.Constant))]
+    if len(body) != 2 or not isinstance(body[0], ast.If):
+        raise TranslateError("__init__: expected `if dt1 and dt2: ... else: ...` followed by self._fix()")
+    t = body[0].test
+    if ast.dump(t) != ast.dump(ast.parse("dt1 and dt2", mode="eval").body):
+        raise TranslateError("__init__: first test is not `dt1 and dt2`")
+    if ast.dump(body[1]) != ast.dump(ast.parse("self._fix()").body[0]):
+        raise TranslateError("__init__: last statement is not self._fix()")
+    kw = body[0].orelse
+    want = {f: f for f in REL + ABS}
+    want["years"], want["months"], want["days"] = "int(years)", "int(months)", "days + weeks * 7"
+    seen = set()
+    for st in kw:
+        if isinstance(st, ast.Assign) and len(st.targets) == 1 and isinstance(st.targets[0], ast.Attribute):
+            tg = st.targets[0]
+            if not (isinstance(tg.value, ast.Name) and tg.value.id == "self" and tg.attr in want and tg.attr not in seen):
+                raise TranslateError("__init__: unexpected assignment to self.%s" % tg.attr)
+            if ast.dump(st.value) != ast.dump(ast.parse(want[tg.attr], mode="eval").body):
+                raise TranslateError("__init__: self.%s is not assigned %s" % (tg.attr, want[tg.attr]))
+            seen.add(tg.attr)
+        elif (isinstance(st, ast.If) and ast.dump(st.test) == ast.dump(
+                ast.parse("isinstance(weekday, integer_types)", mode="eval").body)):
+            if not (len(st.orelse) == 1 and ast.dump(st.orelse[0]) == ast.dump(
+                    ast.parse("self.weekday = weekday").body[0])) or "weekday" in seen:
+                raise TranslateError("__init__: weekday object is not stored as given")
+            seen.add("weekday")
+        elif isinstance(st, ast.Assign) and ast.dump(st) == ast.dump(ast.parse("yday = 0").body[0]):
+            seen.add("yday=0")
+        elif isinstance(st, ast.If) and isinstance(st.test, ast.Name) and st.test.id in ("nlyearday", "yday"):
+            if st.test.id == "nlyearday":
+                # `if nlyearday: ... elif yearday: ...`: the elif must test yearday
+                for e in st.orelse:
+                    if not (isinstance(e, ast.If) and isinstance(e.test, ast.Name) and e.test.id == "yearday"
+                            and not e.orelse):
+                        raise TranslateError("__init__: unexpected else branch of `if nlyearday`")
+            if "yday=0" not in seen:
+                raise TranslateError("__init__: yday is not initialised to 0 before use")
+        elif isinstance(st, ast.If):
+            # guards without effect on the fields: only raise / warn(...) inside
+            for n in ast.walk(st):
+                if isinstance(n, (ast.Assign, ast.AugAssign, ast.Delete, ast.Return)) or (
+                        isinstance(n, ast.Call) and isinstance(n.func, ast.Attribute)):
+                    raise TranslateError("__init__: unexpected statement in a guard of the keyword path")
+        else:
+            raise TranslateError("__init__: unexpected statement in the keyword path: " + ast.dump(st)[:80])
+    missing = [f for f in REL + ABS + ["weekday"] if f not in seen]
+    if missing:
+        raise TranslateError("__init__: no canonical assignment for %s" % ", ".join(missing))
+
+
 HASH_T = TUP([OPT(TUP([INT, INT]))] + [INT] * 8 + [OPT(INT)] * 7)
 HASH_COQ = "(option (Z * Z) * Z * Z * Z * Z * Z * Z * Z * Z * option Z * option Z * option Z * option Z " \
            "* option Z * option Z * option Z)"
@@ -657,12 +752,13 @@ def translate(rd_src, common_src):
             raise TranslateError("_sign / weekday truthiness not available")
         txt = do_method(find_def(rd.body, "_fix"), ["self"], {"self": "rd"}, {}, methods, "mutator", "gen_fix", S,
                         ("obj", "obj"))
-        return txt + ("(* the keyword constructor as the operators call it (all fields passed as integers / "
+        methods.add("gen_fix")
+        out.append(txt)
+        check_init_shape(rd)
+        return ("(* the keyword constructor as the operators call it (all fields passed as integers / "
                       "objects, no weeks, yearday, dt1, dt2): assign the fields, then _fix *)\n"
                       "Definition gen_init (args : obj) : gres obj := gen_fix args.\n")
-    attempt("gen_fix", fix)
-    if "gen_fix" in methods:
-        methods.add("gen_init")
+    attempt("gen_init", fix)
     for py, coq in (("__neg__", "gen_neg"), ("__abs__", "gen_abs")):
         attempt(coq, lambda py=py, coq=coq: do_method(find_def(rd.body, py), ["self"], {"self": "rd"}, {}, methods,
                                                       "function", coq, S, ("obj", "obj")))
@@ -679,6 +775,8 @@ def translate(rd_src, common_src):
     attempt("gen_bool", boolm)
     attempt("gen_eq", lambda: do_method(find_def(rd.body, "__eq__"), ["self", "other"],
             {"self": "rd", "other": "rd"}, {}, methods, "function", "gen_eq", SO, (BOOL, "bool")))
+    attempt("gen_ne", lambda: do_method(find_def(rd.body, "__ne__"), ["self", "other"],
+            {"self": "rd", "other": "rd"}, {}, methods, "function", "gen_ne", SO, (BOOL, "bool")))
     attempt("gen_hash", lambda: do_method(find_def(rd.body, "__hash__"), ["self"], {"self": "rd"}, {}, methods,
             "function", "gen_hash", S, (HASH_T, HASH_COQ)))
 
@@ -691,6 +789,18 @@ def translate(rd_src, common_src):
         return do_method(fake, ["self", "other"], {"self": "rd", "other": "rd"}, {}, methods, "function",
                          "gen_add", SO, ("obj", "obj"))
     attempt("gen_add", add)
+
+    def add_td():
+        fn = find_def(rd.body, "__add__")
+        b = [s for s in fn.body if not (isinstance(s, ast.Expr) and isinstance(s.value, ast.Constant))]
+        want = ast.dump(ast.parse("isinstance(other, datetime.timedelta)", mode="eval").body)
+        if not (len(b) > 1 and isinstance(b[1], ast.If) and ast.dump(b[1].test) == want and not b[1].orelse
+                and not b[0].orelse):
+            raise TranslateError("second statement of __add__ is not `if isinstance(other, datetime.timedelta):`")
+        fake = ast.FunctionDef(name="__add__", args=fn.args, body=b[1].body, decorator_list=[])
+        return do_method(fake, ["self", "other"], {"self": "rd", "other": "td"}, {}, methods, "function",
+                         "gen_add_td", "(v_self : obj) (v_other : tdv)", ("obj", "obj"))
+    attempt("gen_add_td", add_td)
     attempt("gen_sub", lambda: do_method(find_def(rd.body, "__sub__"), ["self", "other"],
             {"self": "rd", "other": "rd"}, {}, methods, "function", "gen_sub", SO, ("obj", "obj")))
     attempt("gen_mul", lambda: do_method(find_def(rd.body, "__mul__"), ["self", "other"], {"self": "rd"},
@@ -719,7 +829,7 @@ def main():
     out_path = sys.argv[1] if len(sys.argv) > 1 else os.path.join(here, "coq/gen/RdMethodsGen.v")
     try:
         txt, errors = translate(open(rd_path).read(), open(cm_path).read())
-    except (TranslateError, SyntaxError, OSError) as ex:
+    except Exception as ex:      # incl. bugs of this translator: fail closed, for C16 only
         txt, errors = ("(* GENERATED by harness/gen_rd_methods.py -- do not edit *)\n"
                        "(* TRANSLATE-ERROR source: %s *)\n" % str(ex).replace("*)", "* )")), [("source", str(ex))]
     for name, msg in errors:
